@@ -852,11 +852,24 @@ def run(ctx):
         return False
     a = arg[0]
     ok9 = False
+
+    def id_of_derived(e):
+        """str(<v>.unique_identifier) with v an element of a list derived from the access-filtered lister"""
+        return isinstance(e, ast.Call) and call_name(e) == 'str' and len(e.args) == 1 and isinstance(e.args[0], ast.Attribute) \
+            and e.args[0].attr == 'unique_identifier' and isinstance(e.args[0].value, ast.Name) and derived_elem(e.args[0].value)
     if isinstance(a, ast.Name):
         vals = assigns.get(a.id, [])
-        ok9 = len(vals) == 1 and isinstance(vals[0], ast.ListComp) and len(vals[0].generators) == 1 and derived_list(vals[0].generators[0].iter) \
-            and isinstance(vals[0].generators[0].target, ast.Name) and vals[0].generators[0].target.id in [x.id for x in ast.walk(vals[0].elt) if isinstance(x, ast.Name)] \
-            and U(vals[0].elt) == 'str(%s.unique_identifier)' % vals[0].generators[0].target.id
+        ok9 = bool(vals)
+        for v in vals:
+            if isinstance(v, ast.ListComp) and len(v.generators) == 1:
+                ok9 = ok9 and derived_list(v.generators[0].iter) and id_of_derived(v.elt)
+            elif (isinstance(v, ast.List) and not v.elts) or (isinstance(v, ast.Call) and call_name(v) == 'list' and not v.args):
+                pass
+            else:
+                ok9 = False
+        for ap_ in appends.get(a.id, []):
+            ok9 = ok9 and ap_.func.attr == 'append' and len(ap_.args) == 1 and id_of_derived(ap_.args[0])
+        ok9 = ok9 and (any(isinstance(v, ast.ListComp) for v in vals) or bool(appends.get(a.id)))
     ctx.check(ok9, 'C03.R9', 'KmipEngine._process_locate|result-provenance', lsite,
               'returned identifiers are str(x.unique_identifier) of elements derived from the access-filtered list only',
               'Locate can return identifiers that do not come from the access-filtered list')
